@@ -63,10 +63,14 @@ def harness_cfg(d):
             "ocwadd": int(d["OCW0"]) - 65535, "cap": 0}
 
 
-def gen(ctx, defines, num, depth, label):
-    # -simulate num is per worker
-    r = ctx.tlc(SPEC, "GenConn", "Gen_Conn.cfg", mode="sim", sim_num=max(1, num // GEN_WORKERS), sim_depth=depth,
-                workers=GEN_WORKERS, defines=defines, timeout=1200, count=False)
+def gen(ctx, defines, num, depth, label, exhaustive=False):
+    """Behaviours of GenConn: seeded simulation, or (exhaustive) every behaviour within the constants."""
+    if exhaustive:
+        r = ctx.tlc(SPEC, "GenConn", "Gen_Conn.cfg", mode="mc", defines=defines, timeout=2400, count=False)
+    else:
+        # -simulate num is per worker
+        r = ctx.tlc(SPEC, "GenConn", "Gen_Conn.cfg", mode="sim", sim_num=max(1, num // GEN_WORKERS), sim_depth=depth,
+                    workers=GEN_WORKERS, defines=defines, timeout=1200, count=False)
     if not r.ok:
         raise vlib.MachineryError("GenConn (%s) failed: %s %s" % (label, r.error or r.violation, r.out[-800:]))
     seen, out = set(), []
@@ -246,7 +250,7 @@ def check_c33(ctx):
     for sw, num in ((3 * U, 200 if q else 3000), (65535, 80 if q else 1000)):
         g = defs(SW0=sw, KINDS='{"HEADERS","DATA","RST"}', REQS='{"post","get"}',
                  DATALENS="{0,1,%d,%d,%d,%d}" % (U, 2 * U, 3 * U, 3 * U + 1), PADS="{0,1,256}", CLS="ClSome",
-                 HOPS='{"read","ret","write"}', READLENS="{1,%d,65535}" % U, STEPS=9, MINSTEPS=6,
+                 HOPS='{"read","ret","write","closebody"}', READLENS="{1,%d,65535}" % U, STEPS=9, MINSTEPS=6,
                  HEAVY='{"DATA","h-read"}')
         ctx.cov["constants"]["Gen_C33_sw%d" % sw] = g
         cases += gen(ctx, g, num, 150, "C33")
@@ -293,7 +297,18 @@ def check_c35(ctx):
              DATALENS="{0,1,%d}" % U, PADS="{0,1}", WUINCS="{0,1,2147483647}", IWS="IwsAll", MFS="MfsAll",
              HOPS='{"read","write","ret"}', STEPS=7, MINSTEPS=3, MAXHDRS=5, HEAVY='{"HEADERS"}', FIRSTH="FALSE")
     ctx.cov["constants"]["Gen_C35"] = g
-    cases += gen(ctx, g, 400 if q else 6000, 150, "C35")
+    cases += gen(ctx, g, 300 if q else 6000, 150, "C35")
+    # every sequence of 2 (thorough: 3, the first one opening a stream) stimuli over a smaller alphabet
+    gx = defs(MAXS=2, SIDS="{1,3}", KINDS='{"HEADERS","NEH","DATA","RST","WU","SETTINGS","PING","CONT"}',
+              REQS='{"get","post","upper","connhdr"}', TRAILERS='{"trailers"}', DATALENS="{1}", PADS="{0}",
+              WUINCS="{0,1}", IWS="Absent", MFS="MfsFlow", HOPS='{"read","write","ret"}', WRITELENS="{1}",
+              STEPS=2, MINSTEPS=1, FIRSTH="FALSE")
+    ctx.cov["constants"]["Gen_C35_exhaustive2"] = gx
+    cases += gen(ctx, gx, 0, 0, "C35-exhaustive", exhaustive=True)
+    if not q:
+        gx3 = dict(gx, STEPS=3, FIRSTH="TRUE")
+        ctx.cov["constants"]["Gen_C35_exhaustive3"] = gx3
+        cases += gen(ctx, gx3, 0, 0, "C35-exhaustive3", exhaustive=True)
     ctx.cov["rule"] = ("cases = TLC-simulated sequences of client frames of every kind (HEADERS incl. malformed / "
                        "connection-specific / trailers / without END_HEADERS, DATA, RST_STREAM, WINDOW_UPDATE incl. 0 and "
                        "overflow, SETTINGS incl. invalid, PING, PRIORITY, CONTINUATION, PUSH_PROMISE, unknown) interleaved "
